@@ -197,6 +197,18 @@ func init() {
 			c.set(TupleV{e.freshInt(c.st, "copied", 64, true), IfaceV{}})
 			return true
 		},
+		"io.CopyBuffer": func(e *Engine, c *callCtx) bool {
+			if c.st.ghost == nil {
+				c.st.ghost = map[string]Value{}
+			}
+			n, _ := c.st.ghost["io_copy_calls"].(IntV)
+			if n.t == nil {
+				n = e.goInt(0)
+			}
+			c.st.ghost["io_copy_calls"] = e.ibin(token.ADD, n, e.goInt(1))
+			c.set(TupleV{e.freshInt(c.st, "copied", 64, true), IfaceV{}})
+			return true
+		},
 		"context.TODO":       func(e *Engine, c *callCtx) bool { c.set(IfaceV{}); return true },
 		"context.Background": func(e *Engine, c *callCtx) bool { c.set(IfaceV{}); return true },
 		"strconv.Itoa":       stubItoa,
@@ -204,7 +216,7 @@ func init() {
 		// ----- randomness -----
 		"github.com/pion/randutil.CryptoUint64": func(e *Engine, c *callCtx) bool {
 			v := e.freshInt(c.st, "rnd", 64, false)
-			c.st.inputs = append(c.st.inputs, inputRec{kind: "u64", t: v.t, label: "CryptoUint64"})
+			c.st.inputs = append(c.st.inputs, inputRec{kind: "u64", t: v.t, label: "env:CryptoUint64"})
 			c.set(TupleV{v, IfaceV{}})
 			return true
 		},
@@ -487,7 +499,7 @@ func (e *Engine) now(st *State) IntV {
 			st.pc = append(st.pc, e.tb.BVUlt(c.t, e.tb.BV(1<<62, 64)))
 		}
 		st.clock = c
-		st.inputs = append(st.inputs, inputRec{kind: "u64", t: c.t, label: "clock0"})
+		st.inputs = append(st.inputs, inputRec{kind: "u64", t: c.t, label: "env:clock0"})
 	}
 	return st.clock
 }
